@@ -333,6 +333,10 @@ fn task_running(
             worker_map
                 .get_worker_mut(worker_id)
                 .insert_sn_task(task_id, rqv.get(rv_id));
+            // The task may have been returned to the ready queue when its prefill was disposed
+            task_queues
+                .get_mut(task.resource_rq_id)
+                .remove(task.id, task.priority());
             (simple_worker_list.as_slice(), false)
         }
         TaskRuntimeState::RunningMultiNode(ws) => {
